@@ -1568,7 +1568,12 @@ class FortranReaderBase:
                             message, startlineno + i, startlineno + i, location
                         )
                         logging.getLogger(__name__).warning(message)
-            return self.line_item("".join(lines), startlineno, endlineno, label, name)
+            joined = "".join(lines)
+            if name is None and len(lines) > 1:
+                # A construct name whose ':' is on a continuation line could
+                # not be recognised from the initial line alone.
+                name, joined = extract_construct_name(joined)
+            return self.line_item(joined, startlineno, endlineno, label, name)
 
         # line is free format or fixed format with f2py directive (that
         # will be interpreted as free format line).
@@ -1657,6 +1662,10 @@ class FortranReaderBase:
             )
             logging.getLogger(__name__).error(message)
         line_content = "".join(lines).strip()
+        if name is None and len(lines) > 1:
+            # A construct name whose ':' is on a continuation line could
+            # not be recognised from the initial line alone.
+            name, line_content = extract_construct_name(line_content)
         if line_content:
             return self.line_item(line_content, startlineno, endlineno, label, name)
         if label is not None:
